@@ -29,16 +29,21 @@ FILL = 7
 
 def RULE(tier):
     n = NMAX[tier]
+    q = tier == "quick"
     return (
-        f"1-d data of length 0..{n} (seed-chosen permutation of 0..n-1, so one cell is 0) x every one of the 2^n masks + nomask x EVERY chunking "
-        "x 3 constructions (da.ma.masked_array with dask mask / numpy mask, from_array of a numpy masked array) x fill_value {None, 7} x "
-        "unary ops {construct, filled(None/99), getmaskarray, getdata, -x, abs, x+3, 2*x, 6/x (domain masking), x<2, x==2, x**2, sqrt, "
-        "set_fill_value, ones/zeros_like, ma.nonzero, ma.where, count, masked_where/equal/not_equal/greater(_equal)/less(_equal)/inside/outside/"
-        "values on masked and on plain input} and reductions {sum, prod, mean, var, std, min, max, any, all, argmin, argmax, ma.count, "
-        "ma.average(weights), cumsum, cumprod} x keepdims x split_every {None, 2}; 2-d shapes (2,2) (all masks) and (2,3) (all masks with "
-        "an all-masked row/column/chunk emphasised) x every chunking x every axis; binary ops {+,-,*,/,<,==,!=,maximum,where} between two "
-        "independently masked and independently chunked operands (masked|plain dask|numpy.ma|scalar-masked); float data with every "
-        "NaN/inf placement for masked_invalid / fix_invalid. non-trivial = >= 2 chunks on some operand."
+        f"1-d data of length 0..{n} (seed-chosen permutation of 0..n-1, so one cell is 0) x EVERY one of the 2^n masks + nomask x EVERY chunking "
+        "x 3 constructions (da.ma.masked_array with a dask mask / a numpy mask, from_array of a numpy masked array) x fill_value {None, 7} x "
+        f"{len(UNARY)} unary ops (construct, scalar mask, dtype, filled(None/99), getmaskarray, getdata, -x, abs, x+3, 2*x, 6/x (domain masking), "
+        "x<2, x==2, x**2, sqrt, astype, x[::-1], x[-1:], set_fill_value, ones/zeros_like, ma.nonzero, ma.where, masked_where (numpy/dask "
+        "condition), masked_equal/not_equal/greater(_equal)/less(_equal) with scalar and array values, masked_inside/outside/values)"
+        + (" (quick: for n >= 3 the numpy-mask/from_array constructions and fill 7 meet a rotating third of the ops)" if q else "")
+        + "; reductions {sum, prod, mean, var, std, min, max, any, all, argmin, argmax, ma.count, ma.average(weights), cumsum, cumprod} x "
+        "keepdims x split_every {None, 2} x int/float data; 2-d (2,2) all masks and (2,3) "
+        + ("(masks with an all-masked row/column or <= 1 masked cell)" if q else "all masks, (3,2)")
+        + f" x every chunking x every axis; binary ops {{+,-,*,/,<,==,!=,maximum,where}} between two independently masked and independently "
+        f"chunked operands of length <= {3 if q else 4} (masked dask | plain dask | numpy.ma | masked scalar) and (2,2) against (2,) "
+        "broadcasting; float data over {1.5,NaN,inf,0} for masked_invalid / fix_invalid. Oracle: mask equal, data equal at unmasked "
+        "cells, dtype, fill_value where the statement names it, block shapes. non-trivial = >= 2 chunks on some operand."
     )
 
 
@@ -97,7 +102,7 @@ BKINDS = ["ma", "plain", "npma", "scalar"]
 BUILDS = ["ma", "ma_np", "fa"]
 INVALID_ALPHA = (1.5, "nan", "inf", 0.0)
 
-KINDS = [("un", 10), ("red", 10), ("red2", 8), ("bin", 8), ("inv", 2), ("un2", 2)]
+KINDS = [("un", 10), ("red", 8), ("red2", 14), ("bin", 10), ("inv", 2), ("un2", 2)]
 
 
 def shards(tier):
